@@ -11,6 +11,9 @@ from harness import core, anngen, project
 from harness.project import call, fix
 
 
+
+RULE_EXTRA = ('the same two objects serve the search that ignores modifications and then the one that does not; another spelling of the same modified residues (order, 1 vs 1.0) and peptide-level decorations (labels, labile) on string inputs for the order-insensitive test (known finding C16_UnorderedComparesText); a modification written twice.')
+
 def slice_abs(A, s, e):
     """Abstract slice used only to *generate* queries (the spec recomputes everything it needs)."""
     n = len(A["seq"])
